@@ -367,7 +367,8 @@ def check(ctx):
     for v, (pname, st, _kw) in cvars.items():
         if not value_mutated[v]:
             continue
-        pdef = next((t for t in m.tree.body if isinstance(t, ast.Assign) and any(isinstance(x, ast.Name) and x.id == pname for x in t.targets)), None)
+        pdef = next((t for t in m.tree.body if (isinstance(t, ast.Assign) and any(isinstance(x, ast.Name) and x.id == pname for x in t.targets))
+                     or (isinstance(t, ast.AnnAssign) and isinstance(t.target, ast.Name) and t.target.id == pname and t.value is not None)), None)
         vcls = None
         if pdef is not None and isinstance(pdef.value, ast.Call) and pdef.value.args:
             r = ix.resolve_expr(m, pdef.value.args[0])
